@@ -8,6 +8,12 @@ PY = "/venv/bin/python"
 
 # id -> (technique, level text, level note, design ref)
 CHECKS = {
+    "C10": (
+        "Hypothesis over twin histories (object, clone, interleaved operation sequences) with byte-equality of the untouched twin's serialisation and the grid model / expected content for the operated twin as oracles",
+        "Tables (with warmed caches and repeated runs), rows, cells, paragraphs, XML parts, containers and whole documents (opened lazily by path, from BytesIO, from a folder, with unsaved edits) are cloned; the clone must equal the original at birth, cloning must not change the original, and no generated operation on one twin may be observable on the other.",
+        "Grid model for tables; C14N/bytes for document parts.",
+        "DESIGN.md 3/C10",
+    ),
     "C15": (
         "Hypothesis over programs (random sequences of read-only entry points) on corpus and generated documents, with byte-equality of part serialisations before/after each call and answer stability as oracle",
         "An explicit table of ~135 read-only entry points (plus every argument-less getter found by signature inspection) of Document, Meta, Body/Element, Table, Row, TOC, List, Frame and the export mixins is exercised in random order on the templates, the bounded-table corpus and generated documents; after each call all XML parts and binary parts must be byte-identical and a second call must return the same answer.",
